@@ -37,6 +37,7 @@ type c06Reader struct {
 	FailAt   int  `json:"fail_at"`
 	WithData bool `json:"with_data,omitempty"`
 	EOFAt    int  `json:"eof_at"`
+	StallAt  int  `json:"stall_at,omitempty"`
 }
 
 // c06Case is one execution (and the replay case) of C06.
@@ -166,7 +167,7 @@ func c06Exec(cs *c06Case, cc *sut.Compiled) (*wk.Failure, c06Obs) {
 			_, err = soyhtml.EvalExpr(node)
 			obs.err = err != nil
 		case "globals":
-			rd := &faults.Reader{Data: []byte(cs.Globals), Chunk: cs.Reader.Chunk, FailAt: cs.Reader.FailAt, WithData: cs.Reader.WithData, EOFAt: cs.Reader.EOFAt}
+			rd := &faults.Reader{Data: []byte(cs.Globals), Chunk: cs.Reader.Chunk, FailAt: cs.Reader.FailAt, WithData: cs.Reader.WithData, EOFAt: cs.Reader.EOFAt, StallAt: cs.Reader.StallAt}
 			_, err := soy.ParseGlobals(rd)
 			obs.err = err != nil
 			if rd.Fired {
@@ -266,7 +267,7 @@ func C06(c *wk.Ctx) {
 	}
 	units, perUnit := 600, 4
 	if c.Tier == "thorough" {
-		units = 12000
+		units = 30000
 	}
 	if c.Mode == "plan" {
 		c.Emit(map[string]interface{}{"ev": "plan", "units": units, "cases_per_unit": perUnit})
@@ -405,7 +406,8 @@ func C06(c *wk.Ctx) {
 				stepG = len(g) / 150
 			}
 			for off := 0; off <= len(g) && off < 5000; off += stepG {
-				readers = append(readers, c06Reader{Chunk: 5, FailAt: off, EOFAt: -1}, c06Reader{Chunk: 0, FailAt: off, WithData: true, EOFAt: -1}, c06Reader{Chunk: 3, FailAt: -1, EOFAt: off})
+				readers = append(readers, c06Reader{Chunk: 5, FailAt: off, EOFAt: -1}, c06Reader{Chunk: 0, FailAt: off, WithData: true, EOFAt: -1}, c06Reader{Chunk: 3, FailAt: -1, EOFAt: off},
+					c06Reader{Chunk: 4, FailAt: -1, EOFAt: -1, StallAt: off + 1})
 			}
 			for i := range readers {
 				cs := c06Case{What: "globals", Globals: g, Reader: &readers[i], Cat: -1, Shrink: []string{"globals"}}
